@@ -34,6 +34,15 @@ def generate(unit_name):
     with open(path, "w") as fh:
         fh.write(u.text())
     u.path = path
+    # the vacuity twin of the unit (DESIGN 7 / 11.5): same text + guards that must fail, verified separately
+    try:
+        uv = gen.process_template(unit_name, os.path.join(VERIF, "contracts", tpl), plan.INST.get(inst) if inst else None, vacuity=True)
+        uv.path = os.path.join(VBUILD, unit_name.replace(".", "_") + "_vacuity.rs")
+        with open(uv.path, "w") as fh:
+            fh.write(uv.text())
+        u.vac = uv
+    except ExtractError:
+        u.vac = None
     return u
 
 
@@ -169,11 +178,13 @@ def _check_property(prop, tier, seed, holder):
         except Undecided as e:
             gen_undecided.append(str(e))
     results = {}
-    with ThreadPoolExecutor(max_workers=max(1, min(8, len(units) + 1))) as ex:
+    with ThreadPoolExecutor(max_workers=max(1, min(16, 2 * len(units) + 1))) as ex:
         futs = {ex.submit(verus.run_verus, u, u.path): u for u in units}
+        vfuts = {ex.submit(verus.run_verus, u.vac, u.vac.path): u for u in units if getattr(u, "vac", None)}
         kfut = ex.submit(kani.run_harnesses, prop, harnesses, tier) if harnesses else None
         for f, u in futs.items():
             results[u.name] = f.result()
+        vac_results = {u.name: f.result() for f, u in vfuts.items()}
         kres = kfut.result() if kfut else None
     holder["kres"] = kres
     if gen_undecided:
@@ -212,16 +223,19 @@ def _check_property(prop, tier, seed, holder):
         r = results[u.name]
         undecided += r["undecided"]
         # vacuity guards: every function named vacuity_* must FAIL
-        vac_fns = [f for f in r["funcs"] if "vacuity_" in f["function"]]
+        # (they live in the unit's vacuity twin file; of that run only the guards are looked at)
+        rv = vac_results.get(u.name)
+        vac_fns = [f for f in (rv["funcs"] if rv else []) if "vacuity_" in f["function"]]
         for f in vac_fns:
             vac_expected += 1
             if f["success"]:
                 undecided.append(f"vacuity guard {f['function']} verified: contradictory assumptions or unsatisfiable precondition")
             else:
                 vac_failed += 1
-        want_vac = sum(1 for ln in u.out_lines if re.search(r"\bfn\s+vacuity_", ln))
+        want_vac = sum(1 for ln in u.vac.out_lines if re.search(r"\bfn\s+vacuity_", ln)) if getattr(u, "vac", None) else 0
         if not r["undecided"] and len(vac_fns) < want_vac:
-            undecided.append(f"unit {u.name}: {want_vac} vacuity guards generated, verus reported {len(vac_fns)}")
+            front = [x for x in (rv["undecided"] if rv else []) if "front-end" in x or "VIR" in x or "no JSON" in x or "timeout" in x]
+            undecided.append(f"unit {u.name}: {want_vac} vacuity guards generated, verus reported {len(vac_fns)} {front[:1]}")
         for d in r["diags"]:
             fn = (d.info or {}).get("fn") or ""
             if fn.startswith("vacuity_"):
